@@ -18,6 +18,8 @@ impl Bytes {
     #[verifier::external_body]
     pub fn copy_from_slice(s: &[u8]) -> (r: Bytes) ensures r@ == s@ { Bytes { v: s.to_vec() } }
     #[verifier::external_body]
+    pub fn vx_from_vec(v: Vec<u8>) -> (r: Bytes) ensures r@ == v@ { Bytes { v } }
+    #[verifier::external_body]
     pub fn slice(&self, r: std::ops::Range<usize>) -> (o: Bytes)
         requires r.start <= r.end <= self@.len()
         ensures o@ == self@.subrange(r.start as int, r.end as int)
@@ -40,6 +42,12 @@ impl BytesMut {
     pub fn is_empty(&self) -> (r: bool) ensures r == (self@.len() == 0) { self.v.is_empty() }
     #[verifier::external_body]
     pub fn as_ref(&self) -> (r: &[u8]) ensures r@ == self@ { &self.v[..] }
+    #[verifier::external_body]
+    pub fn capacity(&self) -> (r: usize) ensures r >= self@.len() { self.v.capacity() }
+    #[verifier::external_body]
+    pub fn remaining_mut(&self) -> (r: usize) { usize::MAX - self.v.len() }
+    #[verifier::external_body]
+    pub fn truncate(&mut self, n: usize) ensures final(self)@ == (if n < old(self)@.len() { old(self)@.subrange(0, n as int) } else { old(self)@ }) { }
     #[verifier::external_body]
     pub fn reserve(&mut self, additional: usize) ensures final(self)@ == old(self)@ { }
     #[verifier::external_body]
